@@ -1,5 +1,6 @@
 SPECIFICATION GenSpec
 CONSTANTS
+  LongFrames = {}
   Accounts = {1, 2}
   Keys = {1, 2}
   MaxDepth = 4
